@@ -193,6 +193,8 @@ fn encode_wal_entry(
             // trade-off: TTL precision is best-effort, not a hard guarantee.
             let expire_at_secs = if let Some(ttl) = ttl_secs {
                 let expire_at = std::time::SystemTime::now() + std::time::Duration::from_secs(*ttl);
+                #[cfg(feature = "__verif")]
+                let expire_at = { let _ = expire_at; d_engine_core::verif_hooks::system_time_now() + std::time::Duration::from_secs(*ttl) };
                 expire_at
                     .duration_since(std::time::UNIX_EPOCH)
                     .map(|d| d.as_secs())
@@ -612,6 +614,8 @@ impl FileStateMachine {
         let mut applied_count = 0;
         let mut skipped_expired = 0;
         let now = std::time::SystemTime::now();
+        #[cfg(feature = "__verif")]
+        let now = { let _ = now; d_engine_core::verif_hooks::system_time_now() };
         {
             let mut data = self.data.write();
 
@@ -754,6 +758,8 @@ impl FileStateMachine {
             .truncate(true)
             .open(data_path)
             .await?;
+        #[cfg(feature = "__verif")]
+        d_engine_core::verif_hooks::crash_point("sm.persist_data.after_truncate");
 
         // Batch serialize into a single buffer — eliminates per-entry async yield overhead.
         // Mirrors append_to_wal's approach for consistent I/O pattern.
@@ -806,7 +812,11 @@ impl FileStateMachine {
         let index = self.last_applied_index.load(Ordering::SeqCst);
         let term = self.last_applied_term.load(Ordering::SeqCst);
 
+        #[cfg(feature = "__verif")]
+        d_engine_core::verif_hooks::crash_point("sm.persist_metadata.after_truncate");
         file.write_all(&index.to_be_bytes()).await?;
+        #[cfg(feature = "__verif")]
+        d_engine_core::verif_hooks::crash_point("sm.persist_metadata.after_index");
         file.write_all(&term.to_be_bytes()).await?;
 
         file.flush().await?;
@@ -866,8 +876,14 @@ impl FileStateMachine {
     /// WAL is the primary crash-safety path; checkpoint bounds recovery replay time.
     pub(crate) async fn checkpoint(&self) -> Result<(), Error> {
         self.persist_data_async().await?;
+        #[cfg(feature = "__verif")]
+        d_engine_core::verif_hooks::crash_point("sm.checkpoint.after_data");
         self.persist_metadata_async().await?;
+        #[cfg(feature = "__verif")]
+        d_engine_core::verif_hooks::crash_point("sm.checkpoint.after_metadata");
         self.clear_wal_async().await?;
+        #[cfg(feature = "__verif")]
+        d_engine_core::verif_hooks::crash_point("sm.checkpoint.after_clear_wal");
 
         self.wal_entries_since_checkpoint.store(0, Ordering::Relaxed);
         if let Ok(mut last) = self.last_checkpoint.lock() {
@@ -1178,6 +1194,8 @@ impl StateMachine for FileStateMachine {
                 OpenOptions::new().write(true).create(true).append(true).open(&wal_path).await?;
             file.write_all(&wal_buf).await?;
             file.flush().await?;
+            #[cfg(feature = "__verif")]
+            d_engine_core::verif_hooks::crash_point("sm.apply.after_wal_write");
         }
 
         // PHASE 3: Fast in-memory updates with minimal lock time
@@ -1235,6 +1253,8 @@ impl StateMachine for FileStateMachine {
                 }
             }
         } // Lock released immediately - no awaits inside!
+        #[cfg(feature = "__verif")]
+        d_engine_core::verif_hooks::crash_point("sm.apply.after_memory_update");
 
         // PHASE 4: Update last applied index and conditionally checkpoint.
         // WAL (written in PHASE 2) is the primary crash-safety path.
@@ -1243,6 +1263,8 @@ impl StateMachine for FileStateMachine {
             debug!("State machine - updated last_applied: {:?}", log_id);
             self.update_last_applied(log_id);
         }
+        #[cfg(feature = "__verif")]
+        d_engine_core::verif_hooks::crash_point("sm.apply.after_last_applied");
 
         self.wal_entries_since_checkpoint.fetch_add(chunk_len as u64, Ordering::Relaxed);
 
@@ -1538,6 +1560,8 @@ impl StateMachine for FileStateMachine {
         }
 
         let now = SystemTime::now();
+        #[cfg(feature = "__verif")]
+        let now = { let _ = now; d_engine_core::verif_hooks::system_time_now() };
 
         // Fast path: sample first 10 entries — if none expired, skip full scan (~30ns)
         if !lease.may_have_expired_keys(now) {
@@ -1584,6 +1608,8 @@ impl StateMachine for FileStateMachine {
             .filter(|(k, _)| k.starts_with(prefix))
             .map(|(k, (v, _))| (k.clone(), v.clone()))
             .collect();
+        #[cfg(feature = "__verif")]
+        d_engine_core::verif_hooks::yield_point("sm.scan.before_revision");
         let revision = self.last_applied_index.load(Ordering::SeqCst);
         Ok(ScanResult { entries, revision })
     }
